@@ -838,7 +838,8 @@ func (in *refInterp) loop(n pFor, w *strings.Builder) rstatus {
 			SKV("first", VBool(i == 0)), SKV("last", VBool(i == l-1)),
 			SKV("index", VInt(0, int64(i+1))), SKV("index0", VInt(0, int64(i))),
 			SKV("rindex", VInt(0, int64(l-i))), SKV("rindex0", VInt(0, int64(l-i-1))),
-			SKV("length", VInt(0, int64(l))))
+			SKV("length", VInt(0, int64(l))),
+			SKV(".cycles", VStrMap())) // the record has an eighth, hidden entry (the cycle positions): a loop over a saved record visits it too
 		if n.Tablerow {
 			row, col := int64(i)/cols, int64(i)%cols
 			if col == 0 {
